@@ -37,17 +37,20 @@ func register(name string, g gen, nontrivial func(in lcw.Input, obs []lcw.StepOb
 	common.Register(name, common.Prop{
 		Generate: func(rr common.Rand, tier string, n int, emit func(*common.Case)) {
 			r := rng.New(rr.U64())
-			count := 0
+			count, calls := 0, 0
 			for count < n && !lcw.Diverged {
 				sub := r.U64()
-				if name == "c10" && count%4 == 3 {
-					sc, err := runStageCase(genStageInput(rng.New(sub)))
-					if err != nil {
-						panic(err)
+				calls++
+				if name == "c10" && calls%3 == 0 { // a batch of stagemaker runs with failing sinks (cheap: extra to n)
+					sr := rng.New(sub)
+					for i := 0; i < 6; i++ {
+						sc, err := runStageCase(genStageInput(sr))
+						if err != nil {
+							panic(err)
+						}
+						sc.Sub = sub
+						emit(sc)
 					}
-					sc.Sub = sub
-					emit(sc)
-					count++
 					continue
 				}
 				if name == "c15" && count%5 == 4 && rk.Available() {
@@ -475,6 +478,16 @@ func init() {
 				}
 				in = lcw.BuildInput(ws)
 			}
+			if mode == "crash" && r.Chance(1, 3) { // a LONG temporary file left by an interrupted earlier rewrite
+				for _, l := range ws.Layers {
+					if r.Chance(2, 3) {
+						ws.Foreign = append(ws.Foreign, lcw.Entry{Path: lcw.B(in.Cfg.Layers + "/" + l.Name + "/layerconfig.tmp"), Kind: "f",
+							Data: lcw.B("base a_rather_long_parent_name_of_an_earlier_attempt\n\n" + lcw.ConfigText(l) +
+								"import bind /srv/one /mnt/one\nimport bind /srv/two /mnt/two\n\nexport symlink /out2 $$file_export\n")})
+					}
+				}
+				in = lcw.BuildInput(ws)
+			}
 			in.Steps = append(in.Steps, priorMounts(r, ws, in.Cfg, false)...)
 			t := pickLayer(r, ws).Name
 			var cmd lcw.StepIn
@@ -526,6 +539,13 @@ func init() {
 				x.Steps = append(append([]lcw.StepIn{}, in.Steps...), c)
 				if mode == "crash" { // what a later invocation sees
 					x.Steps = append(x.Steps, step("probe", "", "", false))
+					if r.Chance(1, 2) { // ... and does: the command again, then a rewrite to a SHORTER text
+						x.Steps = append(x.Steps, cmd)
+						if cmd.Cmd.Kind == "rebase" {
+							x.Steps = append(x.Steps, step("rebase", t, "", false))
+						}
+						x.Steps = append(x.Steps, step("probe", "", "", false))
+					}
 				}
 				out = append(out, x)
 			}
